@@ -10,6 +10,7 @@ from tqdm import tqdm
 import joblib
 
 from quara.objects.qoperation import QOperation
+from quara.utils.number_util import to_stream
 from quara.objects.state import State
 from quara.objects.povm import Povm
 from quara.objects.gate import Gate
@@ -839,6 +840,8 @@ def generate_empi_dists_and_calc_estimate(
     else:
         estimation_results = []
         empi_dists_sequences = []
+        # uses one stream for all iterations so that iterations are independent.
+        seed_or_generator = to_stream(seed_or_generator)
         for _ in tqdm(range(iteration)):
             estimation_result, empi_dists_seq = _generate_empi_dists_and_calc_estimate(
                 qtomography,
